@@ -173,6 +173,17 @@ class MaskOracle:
 
         object.__setattr__(sim, "apply_request", spy)
         s.scratch["restore"] = (sim, orig)
+        # the verdict for the chosen action once the simulator's own start-of-step processing has run (before ANY agent acts)
+        game = env.game
+        orig_pre = game.pre_timestep
+
+        def pre(orig_pre=orig_pre, box=box, sim=sim, target=list(req)):
+            r = orig_pre()
+            box["walk_after_pre"] = walk(sim._request_manager, list(target))
+            return r
+
+        game.pre_timestep = pre
+        s.scratch["restore_pre"] = (game, orig_pre)
 
     def after_step(self, s, a, result):
         v = []
@@ -182,9 +193,22 @@ class MaskOracle:
                 object.__delattr__(sim, "apply_request")
             except Exception:  # noqa
                 object.__setattr__(sim, "apply_request", orig)
+        if s.scratch.get("restore_pre"):
+            game, orig_pre = s.scratch.pop("restore_pre")
+            try:
+                del game.pre_timestep
+            except Exception:  # noqa
+                game.pre_timestep = orig_pre
         mp = s.scratch.get("mask_pre")
         box = s.scratch.get("box") or {}
         name = EE.action_name(s, a)
+        if mp is not None and "walk_after_pre" in box and (box["walk_after_pre"][0] == "handler") != (s.scratch["walk_pre"][0] == "handler"):
+            # nobody has acted since the mask was computed: only the simulator's own start-of-step processing lies in between,
+            # so "executing it now" (the mask's promise) and the execution that follows disagree
+            v.append(violation("mask_holds_until_the_agents_act", "%s:mask=%d:%s->%s" % (name, mp, s.scratch["walk_pre"][0], box["walk_after_pre"][0]),
+                               "action %d %s: mask=%d was computed when the request would be %s; after the simulator's start-of-step "
+                               "processing (before any agent acted) it would be %s (request %s)" % (
+                                   a, name, mp, s.scratch["walk_pre"], box["walk_after_pre"], s.scratch["req"])))
         if mp is not None and "walk_exec" in box and box["walk_exec"] == s.scratch["walk_pre"]:
             cls = _Monitor.classify(box.get("trace"))
             status = box.get("status")
@@ -242,11 +266,27 @@ def plan(tier):
             cfg = HE.gen_scenario(v)
             P.append((v["name"], cfg, "bfs", dict(depth=2, budget=150000, variant=v, time=600)))
         P.append((d2["name"] + "-k2", HE.gen_scenario(d2), "dev", dict(H=7, k=2, variant=d2, reduced=True)))
+        P += _after_plans(d1, 10) + _after_plans(d2, 10)
         return P
     P.append((d2["name"], HE.gen_scenario(d2), "bfs", dict(depth=2, budget=150000, reduced=True, variant=d2)))
     P.append((fw["name"], HE.gen_scenario(fw), "bfs", dict(depth=1, budget=150000, variant=fw)))
     P.append((d1["name"], HE.gen_scenario(d1), "dev", dict(H=6, k=1, variant=d1, reduced=True)))
+    P += _after_plans(d1, 9)
     return P
+
+
+AFTER = [("restart", [("node-service-restart", "'web-server'")]), ("dbrestart", [("node-service-restart", "'database-service'")]),
+         ("install", [("node-application-install", "'database-client'")]), ("shutdown", [("node-shutdown", "'web_server'")]),
+         ("fix", [("node-service-fix", "'web-server'")]), ("reset", [("node-reset", "'database_server'")]),
+         ("delete-restore", [("node-file-delete", "'a.txt'"), ("node-folder-restore", "'docs'")])]
+
+
+def _after_plans(v, H):
+    out = []
+    cfg = HE.gen_scenario(v)
+    for label, hints in AFTER:
+        out.append(("%s-after-%s" % (v["name"], label), cfg, "dev", dict(H=H, k=1, variant=v, reduced=True, script_hints=hints)))
+    return out
 
 
 def make_adapter(name, cfg, p, oracles):
@@ -254,11 +294,133 @@ def make_adapter(name, cfg, p, oracles):
                      init_reset_seed=3, alphabet=alphabet(cfg, p.get("reduced", False)), resets=((None,),),
                      dev_resets=True, extra_params={"scenario_name": name, "p": {k: v for k, v in p.items() if k != "variant"},
                                                      "variant": p.get("variant")})
+    if p.get("script_hints"):
+        # the default script starts with a timed operation (service restart, application install, node shutdown ...): the single
+        # deviations then fall into every step of its transitional phase and into the step in which it completes
+        idx = c01.pick(cfg, [tuple(h) for h in p["script_hints"]])
+
+        def default_event(s, t, ad=ad, idx=idx):
+            return ("a", idx[t]) if t < len(idx) else ("a", ad.default_action)
+
+        ad.default_event = default_event
     return ad
+
+
+# ------------------------------------------------------------------------------------------------ two masked agents
+class TwoAgentAdapter(engine.Adapter):
+    """One PrimaiteGame with TWO masked proxy agents whose action maps differ at (almost) every index, driven the way the
+    multi-agent environment drives it (store_action for both, pre_timestep, apply_agent_actions, advance_timestep,
+    update_agents).  After every step the mask of EACH agent (PrimaiteGame.action_mask) is compared, entry by entry, with the
+    independent walk of the request that THIS agent's action map forms for that entry."""
+
+    fork_expand = False
+
+    def __init__(self, variant, n1=7, n2=7):
+        import copy as _copy
+
+        self.variant = variant
+        self.name = "c11-two-agents-%s" % variant["name"]
+        cfg = HE.gen_scenario(variant)
+        blue = [a for a in cfg["agents"] if a["type"] == "proxy-agent"][0]
+        amap = blue["action_space"]["action_map"]
+        red = alphabet(cfg, reduced=True)
+        second = _copy.deepcopy(blue)
+        second["ref"] = "defender2"
+        # the second agent's map: the reduced alphabet in reverse order (index i means something else than for the first agent)
+        second["action_space"]["action_map"] = {0: {"action": "do-nothing", "options": {}}}
+        for k, i in enumerate(reversed(red), start=1):
+            second["action_space"]["action_map"][k] = _copy.deepcopy(amap[i])
+        second["reward_function"] = {"reward_components": [{"type": "action-penalty", "weight": 1.0,
+                                                            "options": {"action_penalty": -1.0, "do_nothing_penalty": 0.0}}]}
+        cfg["agents"].append(second)
+        self.cfg = cfg
+        self.a1 = red[:n1]
+        self.a2 = list(range(0, len(second["action_space"]["action_map"])))[:n2]
+        self._menu = [("pair", i, j) for i in self.a1 for j in self.a2]
+
+    def params(self):
+        return {"two_agents": True, "variant": self.variant}
+
+    def build(self):
+        import copy as _copy
+        from primaite.game.game import PrimaiteGame
+        from .. import seams
+
+        seams.reset()
+        _Monitor.install()
+
+        class S:
+            pass
+
+        s = S()
+        import random
+        import numpy as np
+
+        random.seed(3)
+        np.random.seed(3)
+        s.game = PrimaiteGame.from_config(_copy.deepcopy(self.cfg))
+        s.game.setup_for_episode(episode=0)
+        s.game.update_agents(s.game.get_sim_state())
+        s.steps = 0
+        return s
+
+    def menu(self, s):
+        return self._menu
+
+    def label(self, ev):
+        return "pair"
+
+    def canon(self, s):
+        from .. import harness_sim as HS
+
+        ids = HS.Ids()
+        deep = tuple(HS.node_canon(n, ids) for n in s.game.simulation.network.nodes.values())
+        return (HE.sha(EE.normalise_ids(repr(deep))), s.game.step_counter)
+
+    def _vectors(self, s, where):
+        v = {}
+        rm = s.game.simulation._request_manager
+        for name in ("defender", "defender2"):
+            ag = s.game.agents[name]
+            mask = [int(x) for x in s.game.action_mask(name)]
+            for i, a in ag.action_manager.action_map.items():
+                req = ag.action_manager.form_request(action_identifier=a[0], action_options=a[1])
+                w = walk(rm, list(req))
+                want = 1 if w[0] == "handler" else 0
+                if mask[i] != want:
+                    sig = "agent=%s:%s:mask=%d:walk=%s" % ("first" if name == "defender" else "second", a[0], mask[i], w[0])
+                    v.setdefault(sig, violation("mask_equals_refusal", sig,
+                                                "%s: agent %s action %d %s %s: mask=%d but ITS request %s would be %s" % (
+                                                    where, name, i, a[0], dict(a[1]), mask[i], req, w)))
+        return list(v.values())
+
+    def check_initial(self, s):
+        return self._vectors(s, "after set-up")
+
+    def apply(self, s, ev):
+        g = s.game
+        g.agents["defender"].store_action(ev[1])
+        g.agents["defender2"].store_action(ev[2])
+        g.pre_timestep()
+        g.apply_agent_actions()
+        g.advance_timestep()
+        g.update_agents(g.get_sim_state())
+        s.steps += 1
+        out = [g.agents[n].history[-1].response.status for n in ("defender", "defender2")]
+        return out, self._vectors(s, "after step %d" % s.steps)
 
 
 def replay(doc):
     p = doc["params"]
+    if p.get("two_agents"):
+        ad = TwoAgentAdapter(p["variant"])
+        s = ad.build()
+        out = list(ad.check_initial(s))
+        for ev in doc["history"]:
+            ad.apply(s, tuple(ev))
+        if doc.get("event") is not None:
+            out += ad.apply(s, tuple(doc["event"]))[1]
+        return out
     cfg = HE.gen_scenario(p["variant"])
     ad = make_adapter(p["scenario_name"], cfg, dict(p["p"], variant=p["variant"]), [MaskOracle()])
     s = ad.build()
@@ -284,8 +446,18 @@ def run(tier, is_known):
         ad = make_adapter(name, cfg, p, [MaskOracle()])
         engine._ADAPTERS[ad.name] = ad
         todo.append((name, mode, p, ad))
+    two = TwoAgentAdapter(dict(HE.GEN[0], name="m2-routed-d1", masking=True, dur=1))
+    engine._ADAPTERS[two.name] = two
     exhaustive = True
     mask_entries = 0
+    r2 = engine.bfs(two, 3 if tier == "thorough" else 2, state_budget=100000, time_budget=900 if tier == "thorough" else 60, is_known=is_known)
+    viols += r2.violations
+    states += r2.states
+    trans += r2.transitions
+    exhaustive = exhaustive and r2.capped is None
+    per.append({"scenario": two.name, "mode": "bfs (two masked agents, joint actions)", "depth_completed": r2.max_depth_completed,
+                "states": r2.states, "transitions": r2.transitions, "merged_by_canon": r2.merged, "cap": r2.capped,
+                "joint_actions": len(two._menu)})
     for name, mode, p, ad in todo:
         t1 = time.time()
         if mode == "bfs":
